@@ -1,7 +1,9 @@
 #!/bin/bash
 # usage: tools/mutant.sh <property> <patch-file> [--build]
-# Applies the patch to a scratch copy of /repo (outside /repo and /verif), runs the property's check against the copy,
-# prints the VIOLATION lines, removes the copy. Exit 0 = the check fired, 1 = it stayed silent, 2 = patch/build problem.
+# Replays a recorded breaking change against the property's check without touching /repo:
+# the patch is applied to a scratch copy of /repo (outside /repo and /verif, removed on exit); the changed Go files are handed to
+# the checker as a go/packages overlay on /repo (positions stay /repo-relative, the build cache stays warm), changed C/DDP library
+# files are read from the copy. Exit 0 = the check fired, 1 = it stayed silent, 2 = the patch does not apply / does not type-check.
 prop="$1"; patch="$(readlink -f "$2")"; build="$3"
 . /verif/env.sh
 S="$(mktemp -d "${TMPDIR:-/tmp}/ddpmut.XXXXXX")"
@@ -9,12 +11,23 @@ trap 'rm -rf "$S"' EXIT
 mkdir -p "$S/repo" "$S/verif"
 rsync -a --exclude .git /repo/ "$S/repo/"
 cp /verif/known_findings.json "$S/verif/"
-(cd "$S/repo" && patch -p1 -s < "$patch") || { echo "PATCH DOES NOT APPLY"; exit 2; }
+(cd "$S/repo" && patch -p1 -s --no-backup-if-mismatch -r - < "$patch" >/dev/null 2>&1) || { echo "PATCH DOES NOT APPLY"; exit 2; }
 if [ "$build" = "--build" ]; then
   (cd "$S/repo" && CGO_LDFLAGS="-L/usr/lib/llvm-14/lib -lLLVM-14" go build ./src/... ./cmd/... 2>&1 | tail -5) || { echo "MUTANT DOES NOT BUILD"; exit 2; }
 fi
-out="$(VERIF_REPO="$S/repo" VERIF_DIR="$S/verif" /verif/bin/ddpverif "$prop" 2>&1)"
+python3 - "$S" <<'PY'
+import sys,os,json,filecmp
+S=sys.argv[1]; ov={}
+for root,dirs,files in os.walk(S+'/repo'):
+    for f in files:
+        p=os.path.join(root,f); rel=os.path.relpath(p,S+'/repo'); o=os.path.join('/repo',rel)
+        if f.endswith('.go') and (not os.path.exists(o) or not filecmp.cmp(p,o,shallow=False)):
+            ov[o]=p
+json.dump(ov,open(S+'/overlay.json','w'))
+PY
+out="$(VERIF_TIER=${VERIF_TIER:-quick} VERIF_OVERLAY="$S/overlay.json" VERIF_C_REPO="$S/repo" VERIF_DIR="$S/verif" /verif/bin/ddpverif "$prop" 2>&1)"
 code=$?
 echo "$out" | grep -B1 "^VIOLATION\|LOAD FAILED\|PANIC" | grep -v "^--" | sed "s#$S/##g" | head -${MUT_LINES:-12}
+if echo "$out" | grep -q "LOAD FAILED"; then exit 2; fi
 if [ $code -eq 1 ] && echo "$out" | grep -q "^VIOLATION"; then exit 0; fi
 echo "SILENT (exit $code)"; exit 1
